@@ -801,7 +801,7 @@ func mustConsume(sc *Scope, g *callgraph.Graph, prims map[string]bool) *consumeI
 			return false
 		}
 		for _, callee := range cs {
-			if prims[callee.String()] || prims[canonFn(callee).String()] {
+			if prims[callee.String()] || prims[canonFn(callee).String()] || prims[ssaRecordedName(callee)] {
 				continue
 			}
 			if t := ci.byCanon[canonFn(callee)]; t != nil && ci.mc[t] {
@@ -1460,4 +1460,13 @@ func calleeLine(r *core.Run, table string, callees map[*ScopeFunc]bool) string {
 		}
 	}
 	return first
+}
+
+// ssaRecordedName: the full name under which a function is known to the
+// configuration tables (its recorded name when it was renamed).
+func ssaRecordedName(f *ssa.Function) string {
+	if fn, ok := canonFn(f).Object().(*types.Func); ok {
+		return core.RecordedFullName(fn)
+	}
+	return f.String()
 }
